@@ -230,6 +230,19 @@ func (c conc) check(got *gostatsd.MetricMap, cn []canon) (string, string) {
 	return "", ""
 }
 
+// hitCache knows every address it is asked about (the cloud stage's fast path)
+type hitCache struct {
+	byAddr map[gostatsd.Source]*gostatsd.Instance
+}
+
+func (h *hitCache) Peek(ip gostatsd.Source) (*gostatsd.Instance, bool) {
+	i, ok := h.byAddr[ip]
+	return i, ok
+}
+func (h *hitCache) IpSink() chan<- gostatsd.Source           { return make(chan gostatsd.Source, 64) }
+func (h *hitCache) InfoSource() <-chan gostatsd.InstanceInfo { return nil }
+func (h *hitCache) EstimatedTags() int                       { return 1 }
+
 // tree is an ordered binary merge tree over leaf indices.
 type tree struct {
 	leaf        int
@@ -396,6 +409,44 @@ func TestCases(t *testing.T) {
 				res.Fail("C07", "TagStage:no-output", "tag stage dispatched nothing", rec("tagstage"))
 			} else if sig, d := after.check(maps[0], c.Canon); sig != "" {
 				res.Fail("C07", "TagStage:"+sig, "TagStage collapse: "+d, rec("tagstage"))
+			}
+		}
+		// 7. the cloud stage's cache-hit path: all maps of the family in ONE batch, each map from an address of its own; the addresses of
+		//    series x all belong to one instance, those of y to another (series without a source pass through unchanged), so the series
+		//    coincide when the stage replaces the address by the instance id
+		{
+			big := gostatsd.NewMetricMap(false)
+			cache := &hitCache{byAddr: map[gostatsd.Source]*gostatsd.Instance{}}
+			for i, es := range c.Maps {
+				from := conc{cc.name, cc.tags, map[string]gostatsd.Source{}}
+				for k, src := range cc.source {
+					if src == "" {
+						from.source[k] = ""
+						continue
+					}
+					addr := gostatsd.Source(fmt.Sprintf("10.9.%d.%d", i, map[string]int{"x": 1, "y": 2}[k]))
+					from.source[k] = addr
+					cache.byAddr[addr] = &gostatsd.Instance{ID: gostatsd.Source("inst-" + k), Tags: gostatsd.Tags{"cloud:" + k}}
+				}
+				big.Merge(from.build(es))
+			}
+			sink := &fakes.Handler{}
+			statsd.NewCloudHandler(cache, sink).DispatchMetricMap(context.Background(), big)
+			maps, _ := sink.Take()
+			after := conc{cc.name, map[string]gostatsd.Tags{}, map[string]gostatsd.Source{}}
+			for k, v := range cc.tags {
+				if cc.source[k] == "" {
+					after.tags[k], after.source[k] = v.Copy(), ""
+				} else {
+					after.tags[k], after.source[k] = append(v.Copy(), "cloud:"+k), gostatsd.Source("inst-"+k)
+				}
+			}
+			res.Eval(n >= 2)
+			res.Hit("cloud-hit-path")
+			if len(maps) != 1 {
+				res.Fail("C07", "CloudHit:no-output", fmt.Sprintf("cloud stage dispatched %d maps for a batch of known sources", len(maps)), rec("cloudhit"))
+			} else if sig, d := after.check(maps[0], c.Canon); sig != "" {
+				res.Fail("C07", "CloudHit:"+sig, "cloud stage, addresses of one instance in one batch: "+d, rec("cloudhit"))
 			}
 		}
 		for _, cn := range c.Canon {
